@@ -587,10 +587,33 @@ def rule_float_literal_form(ctx):
              or (isinstance(x, ast.Call) and isinstance(x.func, ast.Attribute) and x.func.attr == "format" and isinstance(x.func.value, ast.Constant)
                  and x.func.value.value in ("{}", "{0}", "{!r}", "{!s}") and x.args and norm(x.args[0]) == "self.value")
              or (isinstance(x, ast.JoinedStr) and norm(x) in ("f'{self.value}'", "f'{self.value!r}'", "f'{self.value!s}'"))]
-    # accepted: the exponent form is detected and re-expanded, or a fixed-point formatter is used throughout
-    handles_exp = ("'e' in" in txt or "'E' in" in txt) and ("Decimal" in txt or "'f'" in txt or "%f" in txt)
+    # accepted: the exponent form is detected and re-expanded EXACTLY (decimal.Decimal of the shortest repr); a plain 'f'
+    # presentation of the float itself (format(x, 'f'), '%f' % x, '{:f}') keeps six decimals and loses small values
+    handles_exp = ("'e' in" in txt or "'E' in" in txt) and "Decimal" in txt
+    lossy = []
+    for x in body_walk(st.node):
+        if isinstance(x, ast.Call) and call_simple_name(x) == "format" and isinstance(x.func, ast.Name) and len(x.args) == 2 \
+                and isinstance(x.args[1], ast.Constant) and str(x.args[1].value).endswith("f") and "Decimal" not in norm(x.args[0]):
+            lossy.append(x)
+        if isinstance(x, ast.BinOp) and isinstance(x.op, ast.Mod) and isinstance(x.left, ast.Constant) and isinstance(x.left.value, str) \
+                and "f" in x.left.value.replace("%%", "") and "%" in x.left.value and "Decimal" not in norm(x.right) \
+                and any(ch in x.left.value for ch in ("%f", "%.")):
+            lossy.append(x)
+        if isinstance(x, ast.Call) and isinstance(x.func, ast.Attribute) and x.func.attr == "format" and isinstance(x.func.value, ast.Constant) \
+                and isinstance(x.func.value.value, str) and "f}" in x.func.value.value and "Decimal" not in " ".join(norm(a_) for a_ in x.args):
+            lossy.append(x)
+        if isinstance(x, ast.FormattedValue) and x.format_spec is not None and norm(x.format_spec).rstrip("'\"").endswith("f") \
+                and "Decimal" not in norm(x.value):
+            lossy.append(x)
     fixed_only = not plain
-    run.check(is_float and (fixed_only or handles_exp), R, key(cls.module.relpath, "FloatConstant.__str__", "no-exponent-notation"),
+    if lossy:
+        run.violation(R, key(cls.module.relpath, "FloatConstant.__str__", "no-exponent-notation"),
+                      "FloatConstant prints the float through a fixed 'f' presentation (six decimals unless told otherwise): "
+                      "values below 0.0000005 print as 0.000000 and every value loses the digits beyond the sixth -- the printed "
+                      "pattern no longer has the same meaning", file=cls.module.relpath, line=lossy[0].lineno,
+                      function="FloatConstant.__str__", expected="exact expansion (decimal.Decimal of repr)", found=short(lossy[0]))
+        return
+    run.check(is_float and ((fixed_only and "Decimal" in txt) or handles_exp), R, key(cls.module.relpath, "FloatConstant.__str__", "no-exponent-notation"),
               "FloatConstant prints str(float): values below 1e-4 or from 1e16 are written in exponent notation (1e-07), which "
               "the pattern grammar does not have -- a valid pattern [a:b = 0.0000001] prints to text that no longer parses",
               file=cls.module.relpath, line=st.node.lineno, function="FloatConstant.__str__",
@@ -623,5 +646,16 @@ def rule_path_step_kinds(ctx):
                   "returns it as is) and `.property_name` is read from it without the isinstance test its sibling branch has -- "
                   "e.g. [a:b.'c d'[*].e = 1]", file=fi.module.relpath, line=x.lineno, function=fi.qualname,
                   expected="%s.property_name if isinstance(%s, BasicObjectPathComponent) else str(%s)" % (v, v, v), found=short(x.parent if hasattr(x, "parent") else x))
-    if n < 2:
-        raise AnalysisError("visitObjectPath: fewer than 2 reads of .property_name found")
+    # the index of a list step is an integer that may be 0: it must never pass through a truthiness default (`x.value or '*'`)
+    for b_ in body_walk(fi.node):
+        if isinstance(b_, ast.BoolOp) and isinstance(b_.op, ast.Or) and any(
+                (isinstance(v_, ast.Attribute) and v_.attr == "value") or (isinstance(v_, ast.Call) and call_simple_name(v_) == "getattr"
+                                                                            and len(v_.args) >= 2 and norm(v_.args[1]) == "'value'")
+                for v_ in b_.values[:-1]):
+            run.violation(R, key(fi.module.relpath, fi.qualname, "index-through-truthiness"),
+                          "the index of a list step goes through `<value> or <default>`: index 0 is falsy, so [0] turns into the "
+                          "default ([*]) -- the printed pattern addresses other elements", file=fi.module.relpath, line=b_.lineno,
+                          function=fi.qualname, expected="explicit type test (IntegerConstant -> .value, TerminalNode -> text)",
+                          found=short(b_))
+    if n < 1:
+        raise AnalysisError("visitObjectPath: no read of .property_name found")
